@@ -13,11 +13,29 @@ CHECK_DEADLOCK FALSE
 """
 
 
+
+def _line(path, n):
+    """the n-th (0-based) JSON line of a case file"""
+    with open(path) as fh:
+        for i, l in enumerate(fh):
+            if i == n:
+                return json.loads(l)
+    return None
+
 def run(pid, tier, replay=None):
     t0 = time.time()
     wd = vf.workdir(pid)
     binary = vf.build_driver("fastscan")
     verdict = vf.Verdict(pid)
+    if replay:
+        rep = json.load(open(replay))
+        casefile = os.path.join(wd, "replay_cases.jsonl")
+        vf.jsonl_write(casefile, [e["case"]["abstract"] for e in rep["examples"] if "abstract" in e.get("case", {})])
+        rc, out, err = vf.run_driver(binary, [], stdin_path=casefile, timeout=600)
+        bad = [l for l in out.splitlines() if l.strip() and not json.loads(l)["class"].startswith("HARNESS:parser-rejects")]
+        for l in bad:
+            print("REPLAY-MISMATCH", l[:400])
+        return 1 if bad else 0
     runs = [("exh", 2, 0, None)] if tier == "quick" else [("exh", 3, 0, None)]
     runs.append(("sim", 6, 6, 150 if tier == "quick" else 3000))
     states = trans = ncases = 0
@@ -53,7 +71,7 @@ def run(pid, tier, replay=None):
                 continue
             if m["class"].startswith("HARNESS:"):
                 raise vf.MachineryError("renderer/spec disagree with the full parser: %s %r" % (m["detail"], m["text"][:300]))
-            verdict.disagree(m["class"], {"text": m["text"]}, m["detail"])
+            verdict.disagree(m["class"], {"text": m["text"], "abstract": _line(casefile, m["n"])}, m["detail"])
     if skipped > ncases // 10:
         raise vf.MachineryError("too many generated files rejected by the full parser: %d of %d" % (skipped, ncases))
     rc = verdict.finish()
